@@ -68,6 +68,8 @@ KeepGoi(h) == CountOp(h, "goi") >= 1 /\ CountOp(h, "notify") >= 1 /\ CountOp(h, 
 (* a 'static cache from the second step on, then at least two notified batches *)
 KeepStatic(h) == Len(h) >= 3 /\ h[2].step.op = "load" /\ h[3].step.op = "enhance" /\ CountOp(h, "enhance") = 1 /\ CountOp(h, "notify") >= 2
                  /\ h[Len(h)].step.op = "notify"
+(* the cache is converted to a 'static one somewhere in a history that also notifies something *)
+KeepEnh(h) == CountOp(h, "enhance") = 1 /\ CountOp(h, "notify") >= 1 /\ h[2].step.op = "load"
 (* some asset was actually reloaded *)
 KeepReloaded(h) == \E i \in 2..Len(h) : \E e \in h[i].snap : e.rid > 0
 
